@@ -65,9 +65,11 @@ func (c *vChunkConn) SetDeadline(t time.Time) error      { return nil }
 func (c *vChunkConn) SetReadDeadline(t time.Time) error  { return nil }
 func (c *vChunkConn) SetWriteDeadline(t time.Time) error { return nil }
 
-type vQueueHandler struct{ msgs []*Message }
+// like Proxy.HandleRawMessage this handler only QUEUES what it is given (the *RawMessage); the message is looked at
+// later, when the receive loop has gone on reading
+type vQueueHandler struct{ raws []*RawMessage }
 
-func (h *vQueueHandler) HandleRawMessage(msg *RawMessage) { h.msgs = append(h.msgs, msg.Message) }
+func (h *vQueueHandler) HandleRawMessage(msg *RawMessage) { h.raws = append(h.raws, msg) }
 func (h *vQueueHandler) HandleMessage(msg *Message)       {}
 
 var vUDPTrans *UDPServerTransport
@@ -103,7 +105,10 @@ func init() {
 		case <-time.After(10 * time.Second):
 			return "stalled"
 		}
-		queued := h.msgs
+		var queued []*Message
+		for _, r := range h.raws {
+			queued = append(queued, r.Message)
+		}
 		var out []string
 		for _, m := range queued {
 			b, _ := m.Bytes()
